@@ -517,6 +517,10 @@ pub fn battery(text: &str, idents: &[String], t: &mut Tape, st: &mut Stats) -> C
         if t.flag() {
             flags.push("-v".into());
         }
+        if t.flag() {
+            // the exported order must be the order in effect (header = its FV sub-sequence)
+            flags.insert(0, "-r".into());
+        }
         let inv = Invocation {
             ordering_file: Some(file),
             flags,
